@@ -469,6 +469,7 @@ impl ParsedValue {
         foreign_key: &mut ForeignKey,
         values: &LocalesOrNamespaces,
         top_locale: &Key,
+        args_locale: &Key,
         default_locale: &Key,
         extensions: &BTreeMap<Key, Key>,
         key_path: &KeyPath,
@@ -518,6 +519,7 @@ impl ParsedValue {
                     foreign_key,
                     values,
                     next_locale,
+                    args_locale,
                     default_locale,
                     extensions,
                     key_path,
@@ -534,11 +536,12 @@ impl ParsedValue {
             foreign_key_path,
         )?;
 
-        // possibility that args must resolve too
+        // possibility that args must resolve too, they belong to the locale the foreign key was written in,
+        // not to the locale the value is taken from when the target is an explicit default.
         for arg in args.values() {
             arg.resolve_foreign_key(
                 values,
-                top_locale,
+                args_locale,
                 default_locale,
                 extensions,
                 foreign_key_path,
@@ -593,6 +596,7 @@ impl ParsedValue {
                 Self::resolve_foreign_key_inner(
                     &mut foreign_key,
                     values,
+                    top_locale,
                     top_locale,
                     default_locale,
                     extensions,
